@@ -11,8 +11,6 @@ import (
 	"verif/lib/meshq"
 )
 
-
-
 type pool2 struct {
 	verts []model2d.Coord
 	faces []*model2d.Segment
@@ -241,7 +239,6 @@ func derived2(s *meshState2) (which, problem string) {
 	}
 	return "", ""
 }
-
 
 func bfsMesh2(r *ev.Run) {
 	p := newPool2()
